@@ -505,7 +505,7 @@ def heap_tie(ctx: Ctx, derived: dict) -> None:
     rows, descr = [], []
     for (r, rhs, envs) in derived.values():
         m = HEAP_RULES.get((r.code, r.lhs))
-        if m is None:
+        if m is None or r.note.startswith("`"):          # not the idiom with operands of other types
             continue
         ml, mr, _want, kind = m
         objs = [p for p, t in r.params.items() if t in ("list_int", "set_int", "empty_list")]
@@ -665,7 +665,7 @@ def model_tie(ctx: Ctx, derived: dict) -> None:
     skipped = 0
     for (r, rhs, envs) in derived.values():
         m = MODEL_RULES.get((r.code, r.lhs))
-        if m is None or not set(r.params.values()) <= MODEL_TYPES:
+        if m is None or not set(r.params.values()) <= MODEL_TYPES or r.note.startswith("`"):
             continue
         ml, mr, want, kind = m
         cmp_ = {"obj": "oveq", "Z": "ozeq", "bool": "obeq"}[kind]
@@ -726,6 +726,24 @@ def run(ctx: Ctx) -> None:
     ALL = list(RULES)
     for r in RULES:
         ALL += variants(r)
+    # the same idiom with an operand of another type: a check whose type guard is too weak accepts it
+    SWAP = ["int", "float", "bool", "str", "bytes", "list_int", "tuple_int", "set_int", "dict_str_int", "opt_int", "list_str"]
+    seen_t = {(r.code, norm(r.lhs), tuple(r.params.values())) for r in ALL}
+    for r in RULES:
+        if r.rhs is not None or r.annot or r.fs:
+            continue
+        for pname, tag in r.params.items():
+            if tag not in SWAP:
+                continue
+            for alt in SWAP:
+                if alt == tag:
+                    continue
+                ps = dict(r.params)
+                ps[pname] = alt
+                k = (r.code, norm(r.lhs), tuple(ps.values()))
+                if k not in seen_t:
+                    seen_t.add(k)
+                    ALL.append(Rule(r.code, r.lhs, ps, mode=r.mode, setup=r.setup, cls=r.cls, note=f"`{r.lhs}` with {pname}: {alt}"))
     have = {(r.code, norm(r.lhs), tuple(r.params.values())) for r in ALL}
     for r in OPTIONAL_RULES:
         if (r.code, norm(r.lhs), tuple(r.params.values())) not in have:
@@ -759,6 +777,7 @@ def run(ctx: Ctx) -> None:
             if ec:
                 docs[ec.code] = ec.__doc__ or ""
         unmatched, underivable, stale, variant_underivable = [], [], [], []
+        swapped_reported: set = set()
         derived: dict = {}
         scratch = td / "scratch"
         for i, r in enumerate(ALL):
@@ -847,6 +866,13 @@ def run(ctx: Ctx) -> None:
                         continue
                     reported.add(cause)
                     inst = f"{r.lhs}[{','.join(r.params.values())}]"
+                    if r.note.startswith("`"):
+                        # the idiom with an operand of another type: one finding per (idiom, cause), whatever the types
+                        cause = cause.split(":")[0] if cause.startswith("result-type") else cause
+                        if (r.code, r.lhs, cause) in swapped_reported:
+                            continue
+                        swapped_reported.add((r.code, r.lhs, cause))
+                        inst = f"{r.lhs}[other-operand-types]"
                     ctx.report(f"semantics:FURB{r.code}:{inst}:{cause}", f"FURB{r.code}: `{r.lhs}` -> `{rhs}` differ on {', '.join(f'{k}={v!r}' for k, v in args.items())}: "
                                f"{diff[0]}: {str(a[diff[0]])[:120]} vs {str(c[diff[0]])[:120]}",
                                {"rule": r.code, "original": r.lhs, "replacement": rhs, "message": msg, "replacement_from": how, "environment": {k: repr(v) for k, v in args.items()},
